@@ -128,6 +128,28 @@ C06_IDIOMS = {
 
 # ---- C07: sharing by reference through variables, fields, captured variables, parameters ------------------
 C07_IDIOMS = {
+    # nil is a key like any other: for-each (and the library functions built on it) visit the entry and what follows it
+    "nil-key-foreach": Prog([Set("t", Table()), C("SetProperty", [Int(10), Rd("t"), Int(1)]), C("SetProperty", [Int(20), Rd("t"), Nil()]),
+                             C("SetProperty", [Int(30), Rd("t"), Str("z")]),
+                             ForEach("i", "k", "v", Rd("t"), Blk(Log(Rd("i"), Rd("k"), Rd("v")))),
+                             SetG("len", Op("Len", Rd("t"))), SetG("at_nil", C("GetProperty", [Rd("t"), Nil()])),
+                             SetG("big", Call("std.filter", Closure(["k", "v", "i"], Ret(Op("Less", Int(15), Rd("v")))), Rd("t"))),
+                             Set("u", Table()), C("SetProperty", [Int(5), Rd("u"), Nil()]), C("SetProperty", [Int(6), Rd("u"), Int(0)]),
+                             ForEach("", "k", "v", Rd("u"), Blk(Log(Rd("k"), Rd("v"))))]),
+    # a table used as a key: it stays alive, with its own entries, as long as the outer table does
+    "table-as-key": Prog([Set("outer", Table()), Call("fill", Rd("outer")), SetG("junk", Str("garbage one")), SetG("junk", Table()),
+                          SetG("junk", Str("garbage two")), SetG("junk2", Arr(Int(1), Int(2), Int(3))), SetG("junk", Str("garbage three")),
+                          ForEach("", "k", "v", Rd("outer"), Blk(Log(Rd("k.name"), Rd("k.n"), Rd("v")))),
+                          SetG("len", Op("Len", Rd("outer")))],
+                         ("fill", ["o"], [Set("kt", Table()), Set("kt.name", Str("inner name")), Set("kt.n", Int(7)),
+                                          C("SetProperty", [Int(42), Rd("o"), Rd("kt")]), Ret(Int(0))])),
+    # a row whose key cannot be found again (NaN), popped; then rows are read by index
+    "unfindable-key-popped": Prog([Set("t", Table()), C("SetProperty", [Int(1), Rd("t"), Op("Div", Int(0), Int(0))]),
+                                   SetG("p", Op("PopTable", Rd("t"))), SetG("len", Op("Len", Rd("t"))),
+                                   SetG("row", C("Get", [Rd("t"), Int(0)])), Set("f", FnVal("one")),
+                                   C("SetProperty", [Int(2), Rd("t"), Rd("f")]), SetG("p2", Op("PopTable", Rd("t"))),
+                                   SetG("row2", C("Get", [Rd("t"), Int(0)])), SetG("row3", C("Get", [Rd("t"), Int(1)]))],
+                                  ("one", [], [Ret(Int(1))])),
     # a string-keyed field written twice (every write names the field by a fresh string object), garbage created in between
     # and afterwards, then read, iterated and written a third time
     "field-overwritten": Prog([Set("t", Table()), Set("t.name", Int(1)), Set("t.other", Str("x")), SetG("junk", Str("garbage one")),
